@@ -827,8 +827,9 @@ func (s *ValueSet) Process(ctx context.Context, man gdbi.Manager, in gdbi.InPipe
 				out <- t
 				continue
 			}
-			jsonpath.TravelerSetValue(t, s.key, s.value)
-			out <- t
+			o := t.Copy()
+			jsonpath.TravelerSetValue(o, s.key, s.value)
+			out <- o
 		}
 	}()
 	return ctx
